@@ -449,6 +449,21 @@ def menu():
     out.append(('Spec-of-binder-in-dict-value', lambda: glom(5, {'a': Spec(A.x), 'b': Coalesce(S.x, default='gone')}), {'a': 5, 'b': 'gone'}))
     out.append(('Spec-of-reader-sees-enclosing', lambda: glom(5, (A.x, Spec(S.x))), 5))
     out.append(('Auto-of-binder-does-not-leak', lambda: glom(5, (Auto(A.x), Coalesce(S.x, default='gone'))), 'gone'))
+    # the default of a Coalesce is evaluated where the Coalesce stands: nothing a failed or skipped branch bound is visible to it
+    out.append(('coalesce-default-does-not-see-Spec-scope-of-failed-branch',
+                lambda: glom(1, (S(x=Val('outer')), Coalesce(Spec(T['zz'], scope={'x': 'inner'}), default=S.x))), 'outer'))
+    out.append(('coalesce-default-unbound-after-failed-branch',
+                lambda: glom(1, Coalesce(Coalesce(Spec(T['zz'], scope={'x': 'inner'}), default=S.x), default='x is unbound')), 'x is unbound'))
+    out.append(('coalesce-default-does-not-see-binding-of-skipped-branch',
+                lambda: glom(1, (S(x=Val('outer')), Coalesce((S(x=Val('inner')), T), default=S.x, skip=1))), 'outer'))
+    out.append(('coalesce-default-does-not-see-A-binding-of-skipped-branch',
+                lambda: glom(7, Coalesce(Coalesce((A.x, T), default=S.x, skip=7), default='x is unbound')), 'x is unbound'))
+    out.append(('coalesce-later-branch-does-not-see-failed-branch', lambda: glom(1, (S(x=Val('outer')), Coalesce((S(x=Val('inner')), T['zz']), S.x))), 'outer'))
+    # binders spelled as Paths
+    out.append(('Path-A-binder', lambda: glom(5, (Path(A, 'x'), S.x)), 5))
+    out.append(('Path-A-binder-shadows', lambda: glom(5, (S(x=Val('outer')), (Path(A, 'x'), S.x))), 5))
+    out.append(('Path-A-attr-binder', lambda: glom(5, (Path(A.x), S.x)), 5))
+    out.append(('Path-S-reader', lambda: glom(5, (A.x, Path(S, 'x'))), 5))
     out.append(('switch-key-binding-to-own-value', lambda: glom(3, Switch([(S(hit=Val('first')), S.hit)])), 'first'))
     out.append(('switch-key-binding-not-after', lambda: glom(3, (Switch([(S(hit=Val('first')), T)]), Coalesce(S.hit, default='gone'))), 'gone'))
     out.append(('regex-group-chains-forward', lambda: glom('ab12', (Regex(r'(?P<w>[a-z]+)(?P<n>\d+)'), S.n)), '12'))
